@@ -176,6 +176,7 @@ impl PropertyRun {
             "tape": min_tape,
             "orig_tape_len": orig_len,
             "minimised": reproduces,
+            "build_profile": if cfg!(debug_assertions) { "checked" } else { "release" },
             "violation": {"clause": v.clause, "signature": v.signature, "detail": v.detail},
             "trace_hash": format!("{:016x}", fin.trace_hash),
             "case": fin.describe,
@@ -228,6 +229,7 @@ impl PropertyRun {
             rules.push(format!("[{}] {}", name, rule));
             per_check.push(json!({
                 "check": name,
+                "build_profile": if cfg!(debug_assertions) { "checked (overflow-checks, debug-assertions)" } else { "release" },
                 "evaluations": r.evaluations,
                 "nontrivial": r.nontrivial,
                 "distinct_nontrivial": r.distinct_nontrivial,
@@ -274,6 +276,14 @@ impl PropertyRun {
         let dir = format!("{}/evidence", VERIF_DIR);
         let _ = std::fs::create_dir_all(&dir);
         let path = format!("{}/{}.json", dir, self.property);
+        // A check that runs under two build profiles: the second run folds the first run's
+        // evidence into its own.
+        let mut doc = doc;
+        if std::env::var("VERIF_MERGE").is_ok() {
+            if let Ok(prev) = std::fs::read_to_string(&path).map_err(|_| ()).and_then(|t| serde_json::from_str::<Value>(&t).map_err(|_| ())) {
+                doc = merge_evidence(prev, doc);
+            }
+        }
         if let Err(e) = std::fs::write(&path, serde_json::to_string_pretty(&doc).unwrap()) {
             eprintln!("cannot write evidence {}: {}", path, e);
             return 2;
@@ -289,6 +299,34 @@ impl PropertyRun {
             0
         }
     }
+}
+
+fn merge_evidence(a: Value, mut b: Value) -> Value {
+    let add = |x: &Value, y: &Value| json!(x.as_u64().unwrap_or(0) + y.as_u64().unwrap_or(0));
+    for k in ["evaluations", "distinct_nontrivial", "distinct_traces", "distinct_abstract_states", "inconclusive_runs"] {
+        b["coverage"][k] = add(&a["coverage"][k], &b["coverage"][k]);
+    }
+    b["coverage"]["simulated_seconds"] = json!(a["coverage"]["simulated_seconds"].as_f64().unwrap_or(0.0) + b["coverage"]["simulated_seconds"].as_f64().unwrap_or(0.0));
+    for k in ["faults_fired", "probes"] {
+        if let (Some(am), Some(bm)) = (a["coverage"][k].as_object(), b["coverage"][k].as_object_mut()) {
+            for (kk, v) in am {
+                let cur = bm.get(kk).cloned().unwrap_or(json!(0));
+                bm.insert(kk.clone(), add(v, &cur));
+            }
+        }
+    }
+    for k in ["samples", "per_check"] {
+        let mut v = a["coverage"][k].as_array().cloned().unwrap_or_default();
+        v.extend(b["coverage"][k].as_array().cloned().unwrap_or_default());
+        b["coverage"][k] = json!(v);
+    }
+    b["coverage"]["build_profiles"] = json!([a["coverage"]["arithmetic_profile"], b["coverage"]["arithmetic_profile"]]);
+    b["wall_s"] = json!(a["wall_s"].as_f64().unwrap_or(0.0) + b["wall_s"].as_f64().unwrap_or(0.0));
+    b["violations"] = add(&a["violations"], &b["violations"]);
+    let hours = (b["wall_s"].as_f64().unwrap_or(1.0) / 3600.0).max(1e-9);
+    b["coverage"]["runs_per_hour"] = json!((b["coverage"]["evaluations"].as_u64().unwrap_or(0) as f64 / hours) as u64);
+    b["coverage"]["seeds_per_hour"] = b["coverage"]["runs_per_hour"].clone();
+    b
 }
 
 /// Re-run a replay file; returns the exit code (1 = violation reproduced, 0 = not reproduced).
